@@ -21,7 +21,9 @@ Sub-checks
 What is a stand-in: PhasedInputReader (BAM + allele detection) in both stages; in the symbolic run also VcfReader (the
 table is built directly), IndexedFasta (a string) and PhasedVcfWriter (a 10-line model of `write`: a variant present in
 both super-reads and in `components` and heterozygous gets GT = (allele of super-read 0 | allele of super-read 1) and
-PS = component + 1; every other record has its existing phasing removed by _remove_existing_phasing).  The replay runs
+PS = component + 1; every other record has its existing phasing removed by _remove_existing_phasing; the stand-ins of
+VcfReader and PhasedVcfWriter take the `mav` argument run_haplotagphase passes: without it 2-ALT records are not loaded /
+not phased, as in vcf.py).  The replay runs
 the REAL run_haplotagphase on a real VCF file and FASTA written from the witness, through the real VcfReader, the real
 PhasedVcfWriter and real pysam; only PhasedInputReader stays a stand-in there.  That is what validates the writer model.
 
